@@ -8,37 +8,57 @@ import numpy as np
 EPS = np.finfo(float).eps
 
 
-def derivative(f, x0=0.0, steps=(1e-4, 1e-6), f_abs_err=0.0):
+def _one_step(f, f0, h, f_abs_err):
+    fp, fm, fp2, fm2 = f(h), f(-h), f(h / 2), f(-h / 2)
+    vals = np.array([f0, fp, fm, fp2, fm2], dtype=float)
+    if not np.all(np.isfinite(vals)):
+        return None
+    Dh = (fp - fm) / (2 * h)
+    Dh2 = (fp2 - fm2) / h
+    R = (4 * Dh2 - Dh) / 3
+    noise = (100 * EPS * np.max(np.abs(vals)) + f_abs_err) / (h / 2)
+    scale = max(abs(R), abs(Dh), 1e-300)
+    if abs(Dh - Dh2) > 1e-3 * scale + noise:
+        return None
+    # one-sided slopes: on a kink they differ by a constant that does not shrink with h;
+    # with a finite second derivative the gap is ~ h*f'' and halves when h halves.
+    gap_h = abs((fp - f0) / h - (f0 - fm) / h)
+    gap_h2 = abs((fp2 - f0) / (h / 2) - (f0 - fm2) / (h / 2))
+    small = 1e-6 * scale + 4 * noise
+    if gap_h2 > small and gap_h2 > 0.75 * gap_h + 4 * noise:
+        return None
+    return float(R), float(abs(R - Dh2)), float(noise)
+
+
+def derivative(f, x0=0.0, steps=(1e-4, 1e-6), f_abs_err=0.0, strict=False):
     """Derivative of the scalar function t -> f(t) at t = 0 (x0 is only used to scale the step).
 
-    Returns (R, err, noise) for a smooth coordinate or None when the function looks non-smooth around 0 at both
-    step sizes.  R is the Richardson value, err = |R - D_{h/2}| an estimate of the truncation error and noise the
-    round-off floor of a difference quotient with that step."""
+    Returns (R, err, noise) for a smooth coordinate or None when the function looks non-smooth around 0.
+    R is the Richardson value, err = |R - D_{h/2}| an estimate of the truncation error and noise the round-off floor
+    of a difference quotient with that step.  When the first step size leaves a visible truncation error (the two
+    difference quotients disagree by more than 1e-7 relative) the second, smaller step is evaluated as well: the two
+    Richardson values must agree within their own error bars - a kink lying between the two step sizes makes them
+    disagree, and the coordinate is then skipped - and the one with the smaller error bar is returned."""
     f0 = f(0.0)
     if not np.isfinite(f0):
         return None
-    for h0 in steps:
-        h = h0 * max(1.0, abs(x0))
-        fp, fm, fp2, fm2 = f(h), f(-h), f(h / 2), f(-h / 2)
-        vals = np.array([f0, fp, fm, fp2, fm2], dtype=float)
-        if not np.all(np.isfinite(vals)):
-            continue
-        Dh = (fp - fm) / (2 * h)
-        Dh2 = (fp2 - fm2) / h
-        R = (4 * Dh2 - Dh) / 3
-        noise = (100 * EPS * np.max(np.abs(vals)) + f_abs_err) / (h / 2)
-        scale = max(abs(R), abs(Dh), 1e-300)
-        if abs(Dh - Dh2) > 1e-3 * scale + noise:
-            continue
-        # one-sided slopes: on a kink they differ by a constant that does not shrink with h;
-        # with a finite second derivative the gap is ~ h*f'' and halves when h halves.
-        gap_h = abs((fp - f0) / h - (f0 - fm) / h)
-        gap_h2 = abs((fp2 - f0) / (h / 2) - (f0 - fm2) / (h / 2))
-        small = 1e-6 * scale + 4 * noise
-        if gap_h2 > small and gap_h2 > 0.75 * gap_h + 4 * noise:
-            continue
-        return float(R), float(abs(R - Dh2)), float(noise)
-    return None
+    h1 = steps[0] * max(1.0, abs(x0))
+    a = _one_step(f, f0, h1, f_abs_err)
+    if a is not None and a[1] <= 1e-7 * max(abs(a[0]), 1e-300) + a[2] and not strict:
+        return a
+    h2 = steps[1] * max(1.0, abs(x0))
+    b = _one_step(f, f0, h2, f_abs_err)
+    if strict and (a is None or b is None):
+        return None          # strict mode (used to arbitrate): both scales must be smooth and agree
+    if a is None:
+        return b
+    if b is None:
+        # the smaller step is dominated by round-off or sees a kink: keep the first only if it was clean enough
+        return a if a[1] <= 1e-5 * max(abs(a[0]), 1e-300) + a[2] else None
+    bar_a, bar_b = 10 * a[1] + a[2], 10 * b[1] + b[2]
+    if abs(a[0] - b[0]) > bar_a + bar_b + 1e-6 * max(abs(a[0]), abs(b[0])):
+        return None          # the two scales disagree: a kink within the larger step
+    return a if bar_a <= bar_b else b
 
 
 def tolerance(R, err, noise, scale):
